@@ -326,10 +326,10 @@ def run(ctx):
         lossless = rng.random() < 0.55
         kw = common.random_small_config(rng, lossless=lossless, deep=rng.random() < 0.15,
                                         max_w=(12 if i < ncorr else 16), max_h=(8 if i < ncorr else 12))
-        inp = {"config": common.describe_config(kw), "picture_kind": rng.choice(["noise", "zeros", "max", "mid", "extremes", "ramp", "noise", "extremes"]),
+        inp = {"config": common.describe_config(kw), "picture_kind": rng.choice(["noise", "zeros", "max", "mid", "extremes", "ramp", "noise", "extremes", "twin", "skew"]),
                "picture_seed": rng.randrange(1 << 30), "minimum_slice_size_scaler": rng.choice([1, 1, 1, 2, 3, 7])}
         b = run_config(ctx, I, inp, cases if i < ncorr else None)
-        ctx.count(1, key=("cfg", repr(inp)) if inp["picture_kind"] in ("noise", "extremes", "ramp") else None, bucket="stack-" + b)
+        ctx.count(1, key=("cfg", repr(inp)) if inp["picture_kind"] in ("noise", "extremes", "ramp", "twin", "skew") else None, bucket="stack-" + b)
         if i < 2:
             ctx.sample(inp)
     corr_lossless_synthetic(ctx, I, cases)
